@@ -1,6 +1,7 @@
 """C15 -- emitted jump sequences transfer control to exactly the requested address."""
 import json
 import os
+import re
 
 import vlib
 from vlib import Check, zz, zlist, hexbytes
@@ -119,6 +120,35 @@ def run(replay=None):
     good = [r for r in rows if r["ok"]]
     for r in bad:
         ck.impl_violation(classify(r), "%s from=%s to=%s: %s" % (r["fn"], r["from"], r["to"], r.get("why")), r)
+
+    # end to end: the jumps goom really installs (re-patch with another closure of one literal, origin placeholder, interface
+    # stubs in a fresh mapping and in the in-text reserve)
+    live_path = os.path.join(ck.wd, "obs_live.jsonl")
+    rc, lout = vlib.run_hx(hx, ["c15", "-extra", "live", "-seed", str(ck.seed), "-tier", ck.tier, "-out", live_path], timeout=900)
+    if rc != 0 and re.search(r"out of memory|cannot allocate memory|failed to create new OS thread", lout):
+        # the Go runtime itself needed memory while the address-space limit was lowered for the reserve path: not goom's doing
+        ck.notes["live_rerun_after_runtime_oom"] = True
+        rc, lout = vlib.run_hx(hx, ["c15", "-extra", "live", "-seed", str(ck.seed + 1000), "-tier", ck.tier, "-out", live_path], timeout=900)
+    lrows = vlib.read_jsonl(live_path) if os.path.exists(live_path) else []
+    lres = [r for r in lrows if r.get("kind") in ("live-entry", "live-iface", "live-stub")]
+    ck.coverage["evaluations"] += len(lres)
+    ck.notes["live"] = {"entry_rounds": sum(1 for r in lres if r["kind"] == "live-entry"),
+                        "iface": [{k: r.get(k) for k in ("kind", "mode", "reserve_used", "ok", "skipped")} for r in lres if r["kind"] != "live-entry"]}
+    if rc != 0:
+        about = [r for r in lrows if r.get("kind") == "live-iface-about-to-call"]
+        done = [r for r in lrows if r.get("kind") in ("live-iface", "live-stub")]
+        if about and len(about) > len(done):
+            a = about[-1]
+            ck.impl_violation("installed-iface-stub-crashes:" + a["mode"], "the process dies (exit %d) on the call through a mocked interface variable whose stub lives in the %s" % (
+                rc, "in-text reserve (new mappings refused)" if a["mode"] == "reserve" else "fresh mapping"), {"about": a, "tail": lout[-600:]})
+        else:
+            ck.obligation_broken("harness run c15 live (exit %d)" % rc, lout[-1500:])
+    for r in lres:
+        if not r["ok"]:
+            key = "installed-entry-jump-wrong-funcval" if r["kind"] == "live-entry" else "installed-iface-stub-wrong:" + r["mode"]
+            ck.impl_violation(key, "%s: %s" % (r.get("target") or ("interface stub in the " + r["mode"]), r["why"]), r)
+    if not any(r["kind"] == "live-stub" and r["mode"] == "reserve" and r.get("reserve_used") and not r.get("skipped") for r in lres) and rc == 0:
+        ck.notes["live_reserve_path_not_exercised"] = True
 
     # correspondence: implementation output vs Model (and vs the regenerated Gen) inside Coq
     mism_total = 0
